@@ -177,3 +177,15 @@ func (s *Store) Audit() error {
 	}
 	return nil
 }
+
+func (s *Store) NumOpens() int {
+	s.mu.Lock()
+	defer s.mu.Unlock()
+	return s.nOpen
+}
+
+func (s *Store) NumCommits() int {
+	s.mu.Lock()
+	defer s.mu.Unlock()
+	return s.nCommit
+}
